@@ -19,6 +19,19 @@ SampleDistOK == (Rec.op = "sampledist" /\ Done) =>
     /\ Rec.expect = Cardinality(TGrp(Rec.pre)) /\ Rec.support = Rec.expect
     /\ Rec.chi2m <= 1000 * Rec.dof + Rec.slackm
     /\ LET s == Rec.slackm \div 1000 IN s * s >= 128 * Rec.dof /\ (s - 1) * (s - 1) < 128 * Rec.dof
+\* wide registers (N - r >= 64: beyond one machine word of coin bits): the state is the product state with signed
+\* stabilizers (-1)^sign[q] Z_q on the qubits q > r.  Every sample is a Z-string on those qubits whose sign is the
+\* product of the signs of its factors, and every generator is included in about half of the L samples
+\* (independent fair coins: count within L/2 +- 4 sqrt(L), i.e. 8 sigma; fixed seeds)
+WideSampleOK == (Rec.op = "widesample" /\ Done) =>
+    LET n == Rec.n  L == Len(Rec.samples)
+        Cnt(q) == Cardinality({j \in 1..L : Rec.samples[j][q] = 3})
+        Par(w) == Cardinality({q \in 1..n : w[q] = 3 /\ Rec.sign[q] = 1}) % 2 IN
+    /\ L = Rec.L
+    /\ \A j \in 1..L : LET w == Rec.samples[j] IN
+          /\ Len(w) = n + 1 /\ \A q \in 1..n : w[q] \in {0, 3} /\ (q <= Rec.r => w[q] = 0)
+          /\ w[n + 1] = 2 * Par(w)
+    /\ \A q \in Rec.r + 1..n : LET d == 2 * Cnt(q) - L IN d * d <= 64 * L
 \* density matrix: every group element exactly once, weight 2^-N
 DensityExpOK == (Rec.op = "density" /\ Done) =>
     LET S0 == TGrp(Rec.pre)  n == Len(Rec.pre.rows) \div 2 IN
